@@ -68,6 +68,7 @@ pub struct Weights {
     pub adrop: u32,
     pub reent: u32,
     pub unwind: u32,
+    pub prepevent: u32,
     pub lc_collect_open: u32,
 }
 
@@ -103,6 +104,7 @@ impl Default for Weights {
             adrop: 0,
             reent: 0,
             unwind: 0,
+            prepevent: 0,
             lc_collect_open: 1,
         }
     }
@@ -196,6 +198,8 @@ pub struct Gen<'a> {
     /// per thread: flat index of the probe taken before each open frame was pushed
     probe_stack: Vec<Vec<Option<usize>>>,
     long_sleeps_done: u32,
+    /// events built ahead of their use, per thread: (thread, e, np, k0)
+    prepared: Vec<(usize, u32, u8, u32)>,
 }
 
 impl<'a> Gen<'a> {
@@ -211,6 +215,7 @@ impl<'a> Gen<'a> {
             prog: Program::new(id, nthreads, pf.cancelable, str_mode, auto_base),
             probe_stack,
             long_sleeps_done: 0,
+            prepared: vec![],
             used_tids: HashSet::new(),
             ctx_ops: vec![],
             set_pushed: Default::default(),
@@ -358,6 +363,7 @@ impl<'a> Gen<'a> {
             if self.depth_call < 2 { w.reent } else { 0 },
             if !nested && self.m().can_collect_open(t) { w.lc_collect_open } else { 0 },
             if self.depth_call < 2 { w.unwind } else { 0 },
+            w.prepevent,
         ];
         if weights.iter().all(|x| *x == 0) {
             return None;
@@ -437,17 +443,26 @@ impl<'a> Gen<'a> {
                 Op::AddProps { span: *self.rng.pick(&alive), n, k0: new_keys(n) }
             }
             12 => {
-                let np = self.rng.range(0, 2) as u8;
-                Op::AddEvent { span: *self.rng.pick(&alive), e: new_event(), np, k0: new_keys(np) }
+                let span = *self.rng.pick(&alive);
+                match self.take_prepared(t) {
+                    Some((e, np, k0)) => Op::AddEvent { span, e, np, k0 },
+                    None => {
+                        let np = self.rng.range(0, 2) as u8;
+                        Op::AddEvent { span, e: new_event(), np, k0: new_keys(np) }
+                    }
+                }
             }
             13 => {
                 let n = self.rng.range(1, 3) as u8;
                 Op::LAddProps { n, k0: new_keys(n) }
             }
-            14 => {
-                let np = self.rng.range(0, 2) as u8;
-                Op::LAddEvent { e: new_event(), np, k0: new_keys(np) }
-            }
+            14 => match self.take_prepared(t) {
+                Some((e, np, k0)) => Op::LAddEvent { e, np, k0 },
+                None => {
+                    let np = self.rng.range(0, 2) as u8;
+                    Op::LAddEvent { e: new_event(), np, k0: new_keys(np) }
+                }
+            },
             15 => {
                 let n = self.rng.range(1, 2) as u8;
                 Op::LWithProps { n, k0: new_keys(n) }
@@ -496,9 +511,30 @@ impl<'a> Gen<'a> {
             26 => Op::ADrop { a: *self.rng.pick(&adapters) },
             27 => return self.gen_reent(t),
             29 => return self.gen_unwind(t),
+            30 => {
+                // not a label the deprecated entry points take (e % 3 == 2): those build their own event
+                let mut e = new_event();
+                while e % 3 == 2 {
+                    e = new_event();
+                }
+                let np = self.rng.range(0, 2) as u8;
+                let k0 = new_keys(np);
+                self.prepared.push((t, e, np, k0));
+                Op::PrepEvent { e, np, k0 }
+            }
             _ => Op::LcCollectOpen,
         };
         Some(op)
+    }
+
+    /// a prepared event of thread `t`, two times out of three when there is one
+    fn take_prepared(&mut self, t: usize) -> Option<(u32, u8, u32)> {
+        let i = self.prepared.iter().position(|p| p.0 == t)?;
+        if !self.rng.chance(2, 3) {
+            return None;
+        }
+        let (_, e, np, k0) = self.prepared.remove(i);
+        Some((e, np, k0))
     }
 
     /// A few operations, then a panic that unwinds through the scopes they left open.
@@ -879,6 +915,26 @@ impl<'a> Gen<'a> {
         }
         let hold_to = self.prog.ops.len();
         self.prog.no_cycle.push((hold_from + 1, hold_to));
+        // after the collector has caught up, the flooded thread's next calls are nothing but
+        // cancel() (forced commands only), and another thread finishes that root: the cancel must
+        // not stay behind in the thread's list now that the ring has room
+        if self.prog.nthreads > 1 && self.rng.chance(1, 3) {
+            let v = new_span_label();
+            let vt = self.fresh_tid();
+            // the root itself is created after the episode on a different thread, so that its
+            // start is certainly known to the collector
+            let u = (t + 1 + self.rng.below(self.prog.nthreads - 1)) % self.prog.nthreads;
+            self.push(u, Op::Root { l: v, trace_id: vt, parent: 5, sampled: true, np: 0, k0: 0 });
+            self.reserved.insert(v);
+            let at = self.prog.ops.len();
+            self.prog.drain_points.push(at);
+            self.push(t, Op::Cancel { span: v });
+            if self.rng.chance(1, 2) {
+                self.push(t, Op::Cancel { span: v });
+            }
+            self.push(u, Op::Finish { span: v });
+            self.reserved.remove(&v);
+        }
         // deepest parked cancel first: its finish arrives while most of the list is still parked
         if !late.is_empty() && self.rng.chance(1, 2) {
             let at = self.prog.ops.len();
